@@ -14,6 +14,7 @@ package checks
 import (
 	"bytes"
 	"encoding/binary"
+	"encoding/hex"
 	"encoding/json"
 	"fmt"
 	"hash/crc32"
@@ -63,6 +64,7 @@ type c19Event struct {
 	Gno           int64  `json:"gno,omitempty"`
 	GFlags        byte   `json:"gtid_flags,omitempty"`
 	Tail57        bool   `json:"tail57,omitempty"`
+	Tail80        string `json:"tail80,omitempty"` // hex of what a MySQL 8.0 master appends after the 5.7 fields (commit timestamps, transaction length, server versions)
 	LastCommitted int64  `json:"last_committed,omitempty"`
 	SeqNo         int64  `json:"sequence_number,omitempty"`
 	// PREVIOUS_GTIDS
@@ -670,6 +672,10 @@ func (k *c19) runEvent(cs *c19Case) {
 			body = append(body, 2) // LOGICAL_TIMESTAMP_TYPECODE
 			body = u64(body, uint64(e.LastCommitted))
 			body = u64(body, uint64(e.SeqNo))
+			if e.Tail80 != "" {
+				tail, _ := hex.DecodeString(e.Tail80)
+				body = append(body, tail...)
+			}
 		}
 		buf = c19Event19(e, 33, body)
 		ev = replication.NewMysql56BinlogEvent(buf)
@@ -752,7 +758,9 @@ func (k *c19) runEvent(cs *c19Case) {
 		if g != replication.GTID(want) {
 			k.vio(cs, key, fmt.Sprintf("GTID() = %v, master wrote %v", g, want), map[string]string{"event": hexEv(), "got": fmt.Sprint(g)})
 		}
-		if e.Tail57 {
+		if e.Tail57 && e.Tail80 != "" {
+			k.cell("event:mysql-gtid-8.0-tail")
+		} else if e.Tail57 {
 			k.cell("event:mysql-gtid-5.7-tail")
 		} else {
 			k.cell("event:mysql-gtid-5.6")
@@ -983,6 +991,12 @@ func (k *c19) gen(i int) *c19Case {
 		e := &c19Event{Flavor: "MySQL56", What: "gtid", SID: c18RandSID(r).String(), Gno: c19Seq(r), GFlags: byte(r.Intn(2)), Tail57: r.Bool()}
 		if e.Tail57 {
 			e.LastCommitted, e.SeqNo = int64(r.U64()>>1), int64(r.U64()>>1)
+			if r.Bool() {
+				// 8.0: immediate commit timestamp (7 bytes, top bit = original follows),
+				// original commit timestamp (7), transaction length (length-encoded),
+				// immediate server version (4, top bit = original follows), original (4)
+				e.Tail80 = hex.EncodeToString(r.Bytes([]int{7, 14, 15, 17, 19, 23, 25, 27}[r.Intn(8)]))
+			}
 		}
 		c19EvHeader(r, e)
 		cs.Ev = e
